@@ -1002,6 +1002,16 @@ func sliceDefs(o *Obligation) []*Cond {
 	changed := true
 	for changed {
 		changed = false
+		for s := range live {
+			if f, ok := prodFactors.Load(s); ok {
+				for _, x := range f.([2]string) {
+					if !live[x] {
+						live[x] = true
+						changed = true
+					}
+				}
+			}
+		}
 		for _, d := range ds {
 			if d.in {
 				continue
